@@ -79,7 +79,8 @@ theorem affinity_keeps_partial (info : NodeInfo) (B maxShare : Int) (w : Workloa
     | nil => exact absurd hm hM1
     | cons _ _ => rfl
   unfold calculateRealloc keepReq at h
-  simp only [ne_eq, not_true_eq_false, or_self, if_false, hne, Bool.not_false, if_true] at h
+  rw [if_neg (by simp [reallocExact])] at h
+  simp only [hne, Bool.not_false, if_true, Int.zero_add] at h
   -- request validation
   generalize hnr : ({ bind := true, cpuReq := w.cpuReq, cpuLim := w.cpuLim, memReq := dm + w.memReq, memLim := dm + w.memLim } : RawReq) = newReq at h
   have hnb : newReq.bind = true := by rw [← hnr]
